@@ -383,3 +383,68 @@ Lemma ex_pipe_padding_w :
   exists p, pipe_full 50 17 (Some 140%Z) (Some 60%Z) (1 # 2) 16 = Some p /\
     content_lo (px p) == - (1 # 2) /\ osize (px p) = 32%Z /\ osize (py p) = 80%Z.
 Proof. eexists. split; [vm_compute; reflexivity|]. split; [vm_compute; reflexivity|]. split; vm_compute; reflexivity. Qed.
+
+(* ------------------------------------------------------------------ frame cache (several videos) *)
+(* whatever key the decoded frame is filed under: as long as different labelled-frame positions
+   get different keys, every sample is cut from the image of its OWN labelled frame, from any
+   consistent cache state, for any order of (position, instance) entries *)
+Lemma cache_images_own : forall key, (forall p q, key p = key q -> p = q) ->
+  forall idx st, cache_ok key st -> cache_images key st idx = map fst idx.
+Proof.
+  intros key Hinj. induction idx as [|[p j] t IH]; intros st Hok; [reflexivity|].
+  cbn [cache_images map fst]. unfold cache_read. destruct st as [[k img]|].
+  - destruct (Nat.eqb (key p) k) eqn:E.
+    + apply Nat.eqb_eq in E. simpl in Hok. subst k. apply Hinj in E. subst img.
+      f_equal. apply IH. simpl. reflexivity.
+    + f_equal. apply IH. simpl. reflexivity.
+  - f_equal. apply IH. simpl. reflexivity.
+Qed.
+
+Lemma cache_images_position : forall idx,
+  cache_images (fun p => p) None idx = map fst idx.
+Proof. intros. apply cache_images_own; [auto|exact I]. Qed.
+
+Lemma instance_index_gen : forall l a p j,
+  In (p, j) (flat_map (fun pf => map (pair (fst pf)) (seq 0 (lf_ninst (snd pf))))
+                      (combine (seq a (length l)) l)) <->
+  (a <= p)%nat /\ exists f, nth_error l (p - a) = Some f /\ (j < lf_ninst f)%nat.
+Proof.
+  induction l as [|f t IH]; intros a p j.
+  - simpl. split; [tauto|]. intros [_ [f [H _]]]. destruct (p - a)%nat; discriminate.
+  - cbn [length seq combine flat_map]. rewrite in_app_iff, IH. cbn [fst snd]. split.
+    + intros [H|[Hle [g [Hn Hj]]]].
+      * apply in_map_iff in H. destruct H as [j' [E Hin]]. inversion E; subst.
+        apply in_seq in Hin. split; [lia|]. exists f. rewrite Nat.sub_diag. simpl. split; [reflexivity|lia].
+      * split; [lia|]. exists g. replace (p - a)%nat with (S (p - S a)) by lia. simpl. auto.
+    + intros [Hle [g [Hn Hj]]]. destruct (Nat.eq_dec p a) as [->|Hne].
+      * left. rewrite Nat.sub_diag in Hn. simpl in Hn. inversion Hn; subst.
+        apply in_map. apply in_seq. lia.
+      * right. split; [lia|]. exists g. replace (p - a)%nat with (S (p - S a)) in Hn by lia. simpl in Hn. auto.
+Qed.
+
+Lemma instance_index_spec : forall labels p j,
+  In (p, j) (instance_index labels) <->
+  exists f, nth_error labels p = Some f /\ (j < lf_ninst f)%nat.
+Proof.
+  intros. unfold instance_index. rewrite instance_index_gen. rewrite Nat.sub_0_r. split.
+  - intros [_ H]. exact H.
+  - intros H. split; [lia|exact H].
+Qed.
+
+Lemma frame_cache_by_frame_idx_w :
+  let labels := [(0, 0, 1); (1, 0, 2)]%nat in
+  cache_images (key_frame_idx labels) None (instance_index labels) = [0; 0; 0]%nat /\
+  map fst (instance_index labels) = [0; 1; 1]%nat.
+Proof. vm_compute. auto. Qed.
+
+Lemma frame_cache_by_frame_idx_refuted : exists labels,
+  cache_images (key_frame_idx labels) None (instance_index labels) <> map fst (instance_index labels).
+Proof.
+  exists [(0, 0, 1); (1, 0, 2)]%nat. destruct frame_cache_by_frame_idx_w as [A B].
+  cbv zeta in A, B. rewrite A, B. discriminate.
+Qed.
+
+Lemma ex_frame_cache_w :
+  run (CFrameCache true [(0, 0, 2); (1, 0, 1); (0, 1, 1)]%nat)
+  = Some ([0; 0; 0; 0;  0; 1; 0; 0;  1; 0; 1; 0;  2; 0; 0; 1]%Z, [], []).
+Proof. vm_compute. reflexivity. Qed.
